@@ -17,7 +17,7 @@ import numpy as np
 from toqito.channel_ops import apply_channel, choi_to_kraus, kraus_to_choi, natural_representation, partial_channel
 from toqito.helper import channel_dim
 
-from ..exact import NotExact, call, split_int
+from ..exact import NotExact, Pure, call, case_rng, describe, present_nd, present_obj, split_int
 
 RULE = ("maps are random Kraus families (A_i, B_i) with Gaussian-integer entries (|re|,|im| < 2^6; real and complex; CP with B_i = A_i and "
         "non-CP) of every rank 1..5 and every input/output row and column dimension 1..4 (quick: sampled; thorough: full grid), given in every "
@@ -30,7 +30,10 @@ RULE = ("maps are random Kraus families (A_i, B_i) with Gaussian-integer entries
         "Not generated (outside the quantifier, degenerate; observed to misbehave and reported): Choi matrices that are row or column vectors (maps "
         "between spaces of kets: swap/permute_systems takes its vector branch), Hermitian Choi matrices declared on a non-square operator space in "
         "choi_to_kraus (dim=[[r,x],[c,y]] with r != c), flat/column/row (CP) lists together with a rectangular 2xn dim in partial_channel; also the zero "
-        "map and empty lists.")
+        "map and empty lists. Presentation: every ndarray handed to toqito (each Kraus operator of a list independently, X, rho, Choi matrices, dim arrays) is a "
+        "seeded re-presentation of the drawn values (C / Fortran / strided / permuted-stride layout; complex128 with zero imaginary part also as float64 or int64, "
+        "float64 integers also as int64; dim arrays keep their integer dtype), so mixed dtypes and layouts occur inside one list; the values and hence all oracles are "
+        "unchanged; after every call the arguments (arrays, list objects, their elements) are compared with a deep snapshot.")
 ASSUMPTIONS = [
     "two different polynomial maps of degree <= 3 agree on a random point of a box of side 2^6 per coordinate with probability <= 3/2^6 per case (Schwartz-Zippel); many independent cases per configuration class, and the thorough tier determines maps on the full E_ij basis",
     "choi_to_kraus is judged by the exact residual of its defining relation with tolerance 1e-8*scale (LAPACK eigh/svd)",
@@ -224,12 +227,23 @@ def build_forms(As, Bs, cp):
     return forms
 
 
-def snapshot(objs):
-    return [np.array(o, copy=True) for o in objs]
+def mix_real(prng, lists, cplx):
+    """a complex family sometimes contains a real-valued operator (most often the first one): its imaginary part is dropped, so that
+    `present_obj` can hand it over as float64 / int64 next to complex128 operators (mixed dtypes inside one list).  Decided by the
+    presentation stream, so the data stream of the case is not shifted."""
+    for ops in lists:
+        if cplx and len(ops) > 1 and prng.integers(3) == 0:
+            k = 0 if prng.integers(2) else int(prng.integers(len(ops)))
+            ops[k] = ops[k].real + 0j
 
 
-def unchanged(objs, snap):
-    return all(np.array_equal(o, s) and o.dtype == s.dtype for o, s in zip(objs, snap))
+def impure(ctx, guard, fn, info):
+    """purity assertion: the guard was taken before the call on exactly the objects handed to toqito"""
+    why = guard.modified()
+    if why:
+        ctx.violation(f"{fn}: caller's arguments were modified", dict(info, modified=why))
+        return True
+    return False
 
 
 # ------------------------------------------------------------------------------------------------ checks
@@ -247,6 +261,8 @@ def check_apply(ctx, din, dout, r, cp, cplx, extra_form=None, basis=None, seed=N
         X = np.zeros((di0, di1), dtype=np.complex128)
         X[basis] = 1
     assert_exact(3, BITS, r * di0 * di1)
+    prng = case_rng("c04/apply", seed)      # presentation stream: a function of the case seed only
+    mix_real(prng, [As] if cp else [As, Bs], cplx)
     forms = build_forms(As, Bs, cp)
     if extra_form == "triples":
         Cs = [gint(rng, (do1, di1), cplx) for _ in range(r)]
@@ -261,18 +277,16 @@ def check_apply(ctx, din, dout, r, cp, cplx, extra_form=None, basis=None, seed=N
     for name, (obj, (LA, LB)) in forms.items():
         desc = dict(base, fn="apply_channel", form=name)
         ctx.case(desc, nontriv, f"apply/{name}/{'cp' if cp else 'noncp'}/{'square' if di0 == di1 and do0 == do1 else 'rect'}")
-        flat_in = [k for row in obj for k in (row if isinstance(row, list) else [row])]
-        snap = snapshot(flat_in + [X])
-        jX, jphi = jmat(X), jkraus(obj)          # exact forms taken before the implementation sees the arrays
-        impl = call(apply_channel, X, obj)
+        jX, jphi = jmat(X), jkraus(obj)          # exact forms taken from the drawn values; toqito only sees re-presentations of them
+        pX, pobj = present_nd(prng, X), present_obj(prng, obj)
+        guard = Pure(pX, pobj)
+        impl = call(apply_channel, pX, pobj)
         model = ctx.lean().ask("c04_apply_kraus", {"X": jX, "phi": jphi})
         oracle = spec_apply([Z.of(a) for a in LA], [Z.of(b) for b in LB], zX)
-        info = {"case_seed": seed, "function": "apply_channel", "args": desc, "X": jX, "phi": jphi, "theorem": "applyKraus_eq_spec"}
-        if not unchanged(flat_in + [X], snap):
+        info = {"case_seed": seed, "function": "apply_channel", "args": desc, "X": jX, "phi": jphi, "theorem": "applyKraus_eq_spec",
+                "presentation": {"X": describe(pX), "phi": describe(pobj)}}
+        if impure(ctx, guard, f"apply_channel[{name}]", info):
             ok = False
-            ctx.violation(f"apply_channel[{name}]: caller's arrays were modified", info)
-            for o, sn in zip(flat_in + [X], snap):
-                o[...] = sn
         if "reject" in model:
             ok = False
             ctx.violation(f"apply_channel[{name}]: model rejects a well-formed call ({model['reject']})", dict(info, impl=str(impl)[:300]))
@@ -297,10 +311,15 @@ def check_apply(ctx, din, dout, r, cp, cplx, extra_form=None, basis=None, seed=N
             continue  # channel_dim documents only the four forms
         desc2 = dict(base, fn="kraus_to_choi", form=name)
         ctx.case(desc2, nontriv, f"kraus_to_choi/{name}")
-        implJ = call(kraus_to_choi, obj)
+        pobj2 = present_obj(prng, obj)
+        guard = Pure(pobj2)
+        implJ = call(kraus_to_choi, pobj2)
         modelJ = ctx.lean().ask("c04_kraus_to_choi", {"phi": jphi, "sys": 2})
         oracleJ = spec_choi([Z.of(a) for a in LA], [Z.of(b) for b in LB])
-        info2 = {"case_seed": seed, "function": "kraus_to_choi", "args": desc2, "phi": jphi, "theorem": "krausToChoi_eq_spec"}
+        info2 = {"case_seed": seed, "function": "kraus_to_choi", "args": desc2, "phi": jphi, "theorem": "krausToChoi_eq_spec",
+                 "presentation": {"phi": describe(pobj2)}}
+        if impure(ctx, guard, f"kraus_to_choi[{name}]", info2):
+            ok = False
         if "reject" in modelJ or implJ[0] != "ok":
             ok = False
             ctx.violation(f"kraus_to_choi[{name}]: {'model rejects' if 'reject' in modelJ else 'implementation ' + implJ[0]} on a valid call",
@@ -315,9 +334,6 @@ def check_apply(ctx, din, dout, r, cp, cplx, extra_form=None, basis=None, seed=N
             ctx.violation(f"kraus_to_choi[{name}]: Choi matrix differs from sum_ij E_ij (x) Phi(E_ij) (model agree={gm}, oracle agree={gs})",
                           dict(info2, impl=safe_jmat(implJ[1]), model=modelJ))
             continue
-        if not unchanged(flat_in, snap[:-1]):
-            ok = False
-            ctx.violation(f"kraus_to_choi[{name}]: caller's arrays were modified", info2)
         J = implJ[1]
         if LA is As and (LB is Bs or LB is As):
             J_ref = J
@@ -325,14 +341,17 @@ def check_apply(ctx, din, dout, r, cp, cplx, extra_form=None, basis=None, seed=N
         if min(J.shape) < 2:
             ctx.count("skipped/vector-shaped-choi")
             continue
-        Xl = X
         desc3 = dict(base, fn="apply_channel", form="choi-of-" + name)
         ctx.case(desc3, nontriv, "apply/choi/" + ("square" if di0 == di1 and do0 == do1 else "rect"))
-        snapJ = snapshot([J, Xl])
         jJ = jmat(J)
-        implC = call(apply_channel, Xl, J)
+        Xl, pJ = present_nd(prng, X), present_nd(prng, J)
+        guard = Pure(Xl, pJ)
+        implC = call(apply_channel, Xl, pJ)
         modelC = ctx.lean().ask("c04_apply_choi", {"X": jX, "J": jJ})
-        info3 = {"case_seed": seed, "function": "apply_channel", "args": desc3, "X": jX, "J": jJ, "theorem": "apply_repr_independent"}
+        info3 = {"case_seed": seed, "function": "apply_channel", "args": desc3, "X": jX, "J": jJ, "theorem": "apply_repr_independent",
+                 "presentation": {"X": describe(Xl), "J": describe(pJ)}}
+        if impure(ctx, guard, "apply_channel[choi]", info3):
+            ok = False
         if "reject" in modelC or implC[0] != "ok":
             ok = False
             ctx.violation(f"apply_channel[choi]: {'model rejects' if 'reject' in modelC else 'implementation ' + implC[0] + ' ' + str(implC[1])} on a valid call", info3)
@@ -345,9 +364,6 @@ def check_apply(ctx, din, dout, r, cp, cplx, extra_form=None, basis=None, seed=N
             ok = False
             ctx.violation(f"apply_channel: Choi form and Kraus form of the same map act differently (model agree={gm}, oracle agree={gs})",
                           dict(info3, impl=safe_jmat(implC[1]), model=modelC))
-        if not unchanged([J, Xl], snapJ):
-            ok = False
-            ctx.violation("apply_channel[choi]: caller's arrays were modified", info3)
     return ok
 
 
@@ -403,15 +419,19 @@ def check_choi_to_kraus(ctx, din, dout, kind, cplx, dim_form="mat", seed=None):
     desc = {"fn": "choi_to_kraus", "din": list(din), "dout": list(dout), "kind": kind, "complex": cplx, "dim_form": dim_form}
     nontriv = rows > 1 and cols > 1
     ctx.case(desc, nontriv, f"choi_to_kraus/{kind}/{'square' if din[0] == din[1] and dout[0] == dout[1] else 'rect'}/{dim_form}")
-    snap = snapshot([J])
-    info = {"case_seed": seed, "function": "choi_to_kraus", "args": desc, "J": jmat(J), "dim": dim, "theorem": "kraus_of_choi_reproduces"}
+    prng = case_rng("c04/choi_to_kraus", seed)
+    pJ = present_nd(prng, J)
+    pdim = dim if not isinstance(dim, list) or prng.integers(3) else present_nd(prng, np.array(dim), allow_dtype=False)   # dim is documented as int | list[int] | np.ndarray
+    info = {"case_seed": seed, "function": "choi_to_kraus", "args": desc, "J": jmat(J), "dim": dim, "theorem": "kraus_of_choi_reproduces",
+            "presentation": {"J": describe(pJ), "dim": describe(pdim)}}
     zJ = Z.of(J)
-    impl = call(choi_to_kraus, J, dim=dim)
+    guard = Pure(pJ, dim=pdim)
+    impl = call(choi_to_kraus, pJ, dim=pdim)
+    if impure(ctx, guard, "choi_to_kraus", info):
+        return False
     if impl[0] != "ok":
         return not ctx.violation(f"choi_to_kraus: implementation {impl[0]} ({impl[1]}) on a valid call", info)
     kraus = impl[1]
-    if not unchanged([J], snap):
-        return not ctx.violation("choi_to_kraus: caller's array was modified", info)
     scale = max(1, zJ.maxabs())
     # shapes
     flat = not (len(kraus) and isinstance(kraus[0], list))
@@ -432,8 +452,8 @@ def check_choi_to_kraus(ctx, din, dout, kind, cplx, dim_form="mat", seed=None):
     # the returned operators act like the Choi matrix on a random input (both through apply_channel)
     if min(J.shape) >= 2:
         X = gint(rng, (di0, di1), True)
-        y1 = call(apply_channel, X, kraus)
-        y2 = call(apply_channel, X, J)
+        y1 = call(apply_channel, present_nd(prng, X), kraus)
+        y2 = call(apply_channel, present_nd(prng, X), present_nd(prng, J))
         if y1[0] != "ok" or y2[0] != "ok":
             ok = False
             ctx.violation("choi_to_kraus: apply_channel fails on the returned operators / the Choi matrix", dict(info, X=jmat(X), y1=str(y1)[:200], y2=str(y2)[:200]))
@@ -452,6 +472,8 @@ def check_chain(ctx, din, dout, r, cp, cplx, seed=None):
     (di0, di1), (do0, do1) = din, dout
     As = [gint(rng, (do0, di0), cplx, 3) for _ in range(r)]
     sign = [1 if rng.integers(2) else -1 for _ in range(r)]
+    prng = case_rng("c04/chain", seed)
+    mix_real(prng, [As], cplx)
     kind = "cp" if cp else ("herm" if (din[0] == din[1] and dout[0] == dout[1] and rng.integers(2)) else "gen")
     if kind == "cp":
         obj = list(As)
@@ -462,16 +484,27 @@ def check_chain(ctx, din, dout, r, cp, cplx, seed=None):
     desc = {"fn": "chain", "din": list(din), "dout": list(dout), "rank": r, "kind": kind, "complex": cplx}
     ctx.case(desc, di0 * di1 > 1 and do0 * do1 > 1, f"chain/{kind}")
     info = {"case_seed": seed, "function": "kraus_to_choi/choi_to_kraus chain", "args": desc, "phi": jkraus(obj), "theorem": "kraus_of_choi_reproduces"}
-    J1 = call(kraus_to_choi, obj)
+    pobj = present_obj(prng, obj)
+    guard = Pure(pobj)
+    J1 = call(kraus_to_choi, pobj)
+    if impure(ctx, guard, "kraus_to_choi", dict(info, presentation=describe(pobj))):
+        return False
     if J1[0] != "ok":
         return not ctx.violation(f"chain: kraus_to_choi {J1[0]} {J1[1]}", info)
     J1 = J1[1]
     if not np.any(J1):
         return True
-    K2 = call(choi_to_kraus, J1, dim=[[di0, do0], [di1, do1]])
+    pJ1 = present_nd(prng, J1)
+    guard = Pure(pJ1)
+    K2 = call(choi_to_kraus, pJ1, dim=[[di0, do0], [di1, do1]])
+    if impure(ctx, guard, "choi_to_kraus", dict(info, presentation=describe(pJ1))):
+        return False
     if K2[0] != "ok" or len(K2[1]) == 0:
         return not ctx.violation(f"chain: choi_to_kraus {K2[0]} {str(K2[1])[:200]}", info)
+    guard = Pure(K2[1])
     J2 = call(kraus_to_choi, K2[1])
+    if impure(ctx, guard, "kraus_to_choi", info):
+        return False
     if J2[0] != "ok":
         return not ctx.violation(f"chain: kraus_to_choi of the returned operators {J2[0]} {J2[1]}", info)
     J2 = J2[1]
@@ -497,6 +530,8 @@ def check_partial(ctx, rd, cd, sys, dout, r, form, cplx, dim_form="list", sys_de
     R, C = int(np.prod(rd)), int(np.prod(cd))
     assert_exact(3, BITS, r * R * C)
     rho = gint(rng, (R, C), True)
+    prng = case_rng("c04/partial", seed)
+    mix_real(prng, [As] if cp else [As, Bs], cplx)
     if form == "flat":
         obj = list(As)
     elif form == "column":
@@ -532,7 +567,7 @@ def check_partial(ctx, rd, cd, sys, dout, r, form, cplx, dim_form="list", sys_de
     kw = {}
     args = [rho]
     if form == "choi":
-        J = call(kraus_to_choi, [[a, b] for a, b in zip(As, Bs)])
+        J = call(kraus_to_choi, present_obj(case_rng("c04/partial/choi", seed), [[a, b] for a, b in zip(As, Bs)]))
         if J[0] != "ok":
             return not ctx.violation(f"partial_channel: kraus_to_choi failed {J[1]}", {"function": "kraus_to_choi", "args": desc})
         J = J[1]
@@ -544,15 +579,18 @@ def check_partial(ctx, rd, cd, sys, dout, r, form, cplx, dim_form="list", sys_de
     else:
         phi_py = obj
         op, margs = "c04_partial_kraus", {"rho": jmat(rho), "phi": jkraus(obj), "sys": sys, "dim": dim_js}
-    snap = snapshot([rho] + ([phi_py] if form == "choi" else [k for row in obj for k in (row if isinstance(row, list) else [row])]))
+    prho, pphi = present_nd(prng, rho), present_obj(prng, phi_py)
+    pdim = present_nd(prng, dim, allow_dtype=False) if isinstance(dim, np.ndarray) else dim     # dimension arrays keep their integer dtype
+    guard = Pure(prho, pphi, pdim)
     if sys_default:
-        impl = call(partial_channel, rho, phi_py) if dim is None else call(partial_channel, rho, phi_py, dim=dim)
+        impl = call(partial_channel, prho, pphi) if dim is None else call(partial_channel, prho, pphi, dim=pdim)
     else:
-        impl = call(partial_channel, rho, phi_py, sys, dim)
+        impl = call(partial_channel, prho, pphi, sys, pdim)
     model = ctx.lean().ask(op, margs)
-    info = {"case_seed": seed, "function": "partial_channel", "args": desc, "model_op": op, "model_args": margs, "theorem": "partialChannel_eq_id_tensor"}
-    if not unchanged([rho] + ([phi_py] if form == "choi" else [k for row in obj for k in (row if isinstance(row, list) else [row])]), snap):
-        return not ctx.violation(f"partial_channel[{form}]: caller's arrays were modified", info)
+    info = {"case_seed": seed, "function": "partial_channel", "args": desc, "model_op": op, "model_args": margs, "theorem": "partialChannel_eq_id_tensor",
+            "presentation": {"rho": describe(prho), "phi": describe(pphi), "dim": describe(pdim)}}
+    if impure(ctx, guard, f"partial_channel[{form}]", info):
+        return False
     if "reject" in model:
         return not ctx.violation(f"partial_channel[{form}]: model rejects a well-formed call ({model['reject']})", dict(info, impl=str(impl)[:200]))
     if impl[0] != "ok":
@@ -572,11 +610,18 @@ def check_natural(ctx, d_in, d_out, r, cplx, seed=None):
     rng = np.random.default_rng(seed)
     Ks = [gint(rng, (d_out, d_in), cplx) for _ in range(r)]
     X = gint(rng, (d_in, d_in), True)
+    prng = case_rng("c04/natural", seed)
+    mix_real(prng, [Ks], cplx)
     desc = {"fn": "natural_representation", "d_in": d_in, "d_out": d_out, "rank": r, "complex": cplx}
     ctx.case(desc, d_in > 1 and d_out > 1, "natural_representation")
-    impl = call(natural_representation, Ks)
+    pKs = present_obj(prng, Ks)
+    guard = Pure(pKs)
+    impl = call(natural_representation, pKs)
     model = ctx.lean().ask("c04_natural_rep", {"ops": [jmat(k) for k in Ks]})
-    info = {"case_seed": seed, "function": "natural_representation", "args": desc, "ops": [jmat(k) for k in Ks], "theorem": "naturalRep_vec"}
+    info = {"case_seed": seed, "function": "natural_representation", "args": desc, "ops": [jmat(k) for k in Ks], "theorem": "naturalRep_vec",
+            "presentation": describe(pKs)}
+    if impure(ctx, guard, "natural_representation", info):
+        return False
     if "reject" in model or impl[0] != "ok":
         return not ctx.violation(f"natural_representation: {'model rejects' if 'reject' in model else 'implementation ' + str(impl)[:200]}", info)
     try:
@@ -619,14 +664,22 @@ def check_channel_dim(ctx, din, dout, r, form, dim_form, allow_rect, mismatch=Fa
     desc = {"fn": "channel_dim", "din": list(din), "dout": list(dout), "rank": r, "form": form, "dim_form": dim_form, "allow_rect": allow_rect,
             "mismatch": mismatch}
     ctx.case(desc, False, f"channel_dim/{form}/{dim_form}")
+    prng = case_rng("c04/channel_dim", seed)
+    pdim = present_nd(prng, dim, allow_dtype=False) if isinstance(dim, np.ndarray) else dim
     if obj is None:
         rows, cols = di0 * do0, di1 * do1
-        impl = call(channel_dim, np.zeros((rows, cols)), allow_rect, dim, False)
+        pobj = present_nd(prng, np.zeros((rows, cols)))
+        guard = Pure(pobj, pdim)
+        impl = call(channel_dim, pobj, allow_rect, pdim, False)
         model = ctx.lean().ask("c04_channel_dim", {"phi": None, "rows": rows, "cols": cols, "allow_rect": allow_rect, "dim": dim_js})
     else:
-        impl = call(channel_dim, obj, allow_rect, dim)
+        pobj = present_obj(prng, obj)
+        guard = Pure(pobj, pdim)
+        impl = call(channel_dim, pobj, allow_rect, pdim)
         model = ctx.lean().ask("c04_channel_dim", {"phi": jkraus(obj), "allow_rect": allow_rect, "dim": dim_js})
-    info = {"case_seed": seed, "function": "channel_dim", "args": desc, "model": model, "impl": str(impl)[:300]}
+    info = {"case_seed": seed, "function": "channel_dim", "args": desc, "model": model, "impl": str(impl)[:300], "presentation": {"phi": describe(pobj), "dim": describe(pdim)}}
+    if impure(ctx, guard, "channel_dim", info):
+        return False
     if "reject" in model:
         if impl[0] == "ok":
             return not ctx.violation(f"channel_dim: model rejects ({model['reject']}) but the implementation returns", info)
